@@ -390,6 +390,27 @@ impl AlternateTime {
         self.dst_end_time
     }
 
+    /// Returns the order of the DST start and end times in a same year, which is the same for all years where they differ.
+    ///
+    /// This order depends only on the type of the year (leap year or not, and week day of January 1st),
+    /// so it is sufficient to check a period of 28 consecutive years without century exception, which contains the 14 possible year types.
+    ///
+    pub(crate) const fn dst_start_end_order(&self) -> Ordering {
+        // Overflow is not possible
+        let dst_start_time_in_utc = self.dst_start_time as i64 - self.std.ut_offset as i64;
+        let dst_end_time_in_utc = self.dst_end_time as i64 - self.dst.ut_offset as i64;
+
+        let mut year = 2000;
+        while year < 2028 {
+            match cmp(self.dst_start.unix_time(year, dst_start_time_in_utc), self.dst_end.unix_time(year, dst_end_time_in_utc)) {
+                Ordering::Equal => year += 1,
+                order => return order,
+            }
+        }
+
+        Ordering::Equal
+    }
+
     /// Find the local time type associated to the alternate transition rule at the specified Unix time in seconds
     const fn find_local_time_type(&self, unix_time: i64) -> Result<&LocalTimeType, TzError> {
         // Overflow is not possible
@@ -412,7 +433,13 @@ impl AlternateTime {
         // Check DST start/end Unix times for previous/current/next years to support for transition day times outside of [0h, 24h] range.
         // This is sufficient since the absolute value of DST start/end time in UTC is less than 2 weeks.
         // Moreover, inconsistent DST transition rules are not allowed, so there won't be additional transitions at the year boundary.
-        let is_dst = match cmp(current_year_dst_start_unix_time, current_year_dst_end_unix_time) {
+        // DST start and end times can coincide on some years only, in which case their order is given by the other years
+        let dst_start_end_order = match cmp(current_year_dst_start_unix_time, current_year_dst_end_unix_time) {
+            Ordering::Equal => self.dst_start_end_order(),
+            order => order,
+        };
+
+        let is_dst = match dst_start_end_order {
             Ordering::Less | Ordering::Equal => {
                 if unix_time < current_year_dst_start_unix_time {
                     let previous_year_dst_end_unix_time = self.dst_end.unix_time(current_year - 1, dst_end_time_in_utc);
